@@ -260,6 +260,9 @@ func BuildGo(p *dsl.Program, files map[string][]byte, dir string, withTests bool
 	env := []string{"GOFLAGS=-mod=mod", "GOPROXY=off", "GOTOOLCHAIN=local", "GONOSUMDB=*", "GONOSUMCHECK=1", "GOFLAGS=-mod=mod"}
 	bin := filepath.Join(dir, "drvbin")
 	r := cli.Run(dir, buildTimeout, nil, env, "go", "build", "-o", bin, "./drv")
+	if r.TimedOut {
+		panic("harness: toolchain timed out (machine overloaded?)")
+	}
 	if r.Exit != 0 {
 		// which stage? build the emitted package alone
 		r2 := cli.Run(dir, buildTimeout, nil, env, "go", "build", "./"+pkg)
@@ -270,7 +273,10 @@ func BuildGo(p *dsl.Program, files map[string][]byte, dir string, withTests bool
 	}
 	if withTests {
 		r := cli.Run(dir, buildTimeout, nil, env, "go", "test", "-c", "-vet=off", "-o", filepath.Join(dir, "emitted.test"), "./"+pkg)
-		if r.Exit != 0 {
+		if r.TimedOut {
+		panic("harness: toolchain timed out (machine overloaded?)")
+	}
+	if r.Exit != 0 {
 			return nil, &BuildError{"go", "emitted-tests", string(r.Stderr) + string(r.Stdout)}
 		}
 	}
